@@ -245,6 +245,14 @@ def programs(tier):
         p.fn("g", [("x", TParam("T"))], INT32, TCall(tr, "m", Var("x")), gens=[("T", ["TA", "TB"])])
         p.fn("main", [], UNIT, Block([println(show_int(Call("g", Struct(S, [("a", Int(1)), ("b", Bool(True))]), targs=[S]))), println(show_int(TCall(tr, "m", Struct(S, [("a", Int(1)), ("b", Bool(True))]))))], Unit))
         out.append({"prog": p, "family": "c17", "ident": f"c17:disambiguated:{tr}", "expect": "accept"})
+    # one method name defined in two inherent impl blocks of one type: rejected, not resolved to one of them
+    p = Program("c17_method_in_two_blocks")
+    decls(p)
+    p.impl(None, S, [("dup", [("self", S)], INT32, Int(1))])
+    p.impl(None, S, [("dup", [("self", S)], INT32, Int(2))])
+    cd = Call("inherent#S#dup", Struct(S, [("a", Int(1)), ("b", Bool(True))])); cd["form"] = "ufcs"
+    p.fn("main", [], UNIT, Block([println(show_int(cd))], Unit))
+    out.append({"prog": p, "family": "c17", "ident": "c17:method-in-two-inherent-blocks", "expect": "reject"})
     p = Program("c17_dyn_without_impl")
     decls(p)
     p.impl("Tr", INT32, [("tm", [("self", INT32), ("a", INT32)], INT32, Var("a"))])
